@@ -131,7 +131,7 @@ func newSemVerType3(limits px.List) *SemVerType {
 	}
 
 	if argc == 1 {
-		if ranges, ok := limits.At(0).(px.List); ok {
+		if ranges, ok := limits.At(0).(*Array); ok {
 			return newSemVerType3(ranges)
 		}
 	}
